@@ -189,6 +189,11 @@ def revolve(
     if transform is not None:
         # apply transform to vertices
         vertices = tf.transform_points(vertices, transform)
+        # if the transform flips the winding flip faces back
+        # so that the normals will be facing outwards
+        if tf.flips_winding(transform):
+            # fliplr makes arrays non-contiguous
+            faces = np.ascontiguousarray(np.fliplr(faces))
 
     # create the mesh from our vertices and faces
     mesh = Trimesh(vertices=vertices, faces=faces, **kwargs)
